@@ -1,1 +1,113 @@
-// harness file ordering_sender (included under cfg(kani) from /repo)
+// C14 — hook in helpers/buffers/ordering_sender.rs: the waker bookkeeping of OrderingSender as
+// data-structure steps (Kani has no threads: the interleavings themselves are NOT explored; what
+// is decided is that every single step keeps the invariants the lost-wake-up argument relies on).
+use super::*;
+use crate::verif_kani::common::rawwake::{waker, woken};
+use crate::verif_kani::common::*;
+
+/// arbitrary shard with N parked wakers (N instantiated: 0, 1, 2), strictly increasing symbolic
+/// indices, symbolic woken_at; waker k is parked at idx[k]
+fn any_shard(n: usize) -> (WaitingShard, [usize; 2]) {
+    let idx: [usize; 2] = kani::any();
+    kani::assume(idx[0] < idx[1] && idx[1] < 1000);
+    let mut wakers = VecDeque::new();
+    if n >= 1 {
+        wakers.push_back(WakerItem { i: idx[0], w: waker(0) });
+    }
+    if n >= 2 {
+        wakers.push_back(WakerItem { i: idx[1], w: waker(1) });
+    }
+    let woken_at: usize = kani::any();
+    kani::assume(woken_at < 1000);
+    (WaitingShard { woken_at, wakers }, idx)
+}
+
+macro_rules! shard_steps {
+    ($wake:ident, $add:ident, $n:expr) => {
+        harness! {
+            #[kani::unwind(5)]
+            fn $wake() {
+                let n: usize = $n;
+                let (mut s, idx) = any_shard(n);
+                let before = s.woken_at;
+                let i: usize = kani::any();
+                kani::assume(i < 1000);
+                s.wake(i);
+                assert!(s.woken_at >= before && s.woken_at >= i, "woken_at never moves backwards");
+                assert!(s.woken_at == if before > i { before } else { i });
+                let hit0 = n >= 1 && idx[0] == i;
+                let hit1 = n >= 2 && idx[1] == i;
+                assert!(woken(0) == usize::from(hit0), "exactly the waker parked for i is woken");
+                assert!(woken(1) == usize::from(hit1));
+                // stale entries below i are dropped only when i was found; later entries always stay
+                let expect_len = if hit0 { n.wrapping_sub(1) } else if hit1 { 0 } else { n };
+                assert!(s.wakers.len() == expect_len);
+                if hit0 && n == 2 {
+                    assert!(s.wakers[0].i == idx[1]);
+                }
+                kani::cover!(before > i);
+                std::mem::forget(s);
+            }
+        }
+
+        harness! {
+            #[kani::unwind(5)]
+            fn $add() {
+                let n: usize = $n;
+                let (mut s, idx) = any_shard(n);
+                let woken_at = s.woken_at;
+                let (current, i): (usize, usize) = (kani::any(), kani::any());
+                kani::assume(current < 1000 && i < 1000);
+                let wn = waker(2);
+                match s.add(current, i, &wn) {
+                    Err(()) => {
+                        assert!(current < woken_at, "a waker is refused only when the caller's view is stale");
+                        assert!(s.wakers.len() == n, "a refused waker leaves the shard unchanged");
+                    }
+                    Ok(()) => {
+                        assert!(current >= woken_at, "a stale view is never accepted (it could sleep forever)");
+                        assert!(s.woken_at == woken_at);
+                        let replaced = (n >= 1 && idx[0] == i) || (n >= 2 && idx[1] == i);
+                        assert!(s.wakers.len() == if replaced { n } else { n + 1 }, "one waker per index");
+                        let mut k = 0;
+                        let mut found = false;
+                        while k < s.wakers.len() {
+                            if k + 1 < s.wakers.len() {
+                                assert!(s.wakers[k].i < s.wakers[k + 1].i, "wakers stay sorted by index");
+                            }
+                            if s.wakers[k].i == i {
+                                s.wakers[k].w.wake_by_ref();
+                                found = true;
+                            }
+                            k += 1;
+                        }
+                        assert!(found && woken(2) == 1 && woken(0) == 0 && woken(1) == 0, "the entry for i holds the waker just supplied");
+                    }
+                }
+                kani::cover!(current >= woken_at);
+                kani::cover!(current < woken_at);
+                std::mem::forget(s);
+            }
+        }
+    };
+}
+pub(crate) mod shard0 { use super::*; shard_steps!(q14_waiting_shard_wake_step, q14_waiting_shard_add_step, 0); }
+pub(crate) mod shard1 { use super::*; shard_steps!(q14_waiting_shard_wake_step, q14_waiting_shard_add_step, 1); }
+pub(crate) mod shard2 { use super::*; shard_steps!(q14_waiting_shard_wake_step, q14_waiting_shard_add_step, 2); }
+
+harness! {
+    #[kani::unwind(3)]
+    fn q14_save_waker_keeps_the_latest() {
+        // a blocked party that is polled again with a different waker must be woken through the NEW one
+        let (wa, wb) = (waker(0), waker(1));
+        let mut slot: Option<Waker> = if kani::any() { Some(wa.clone()) } else { None };
+        let cx = Context::from_waker(&wb);
+        State::save_waker(&mut slot, &cx);
+        assert!(slot.is_some());
+        State::wake(&mut slot);
+        assert!(slot.is_none(), "a waker is used once");
+        assert!(woken(1) == 1 && woken(0) == 0, "the most recently supplied waker is the one woken");
+        kani::cover!(true);
+        std::mem::forget(wa);
+    }
+}
